@@ -251,7 +251,7 @@ func heapMatches(name, pat string) bool {
 	if pat == "*" {
 		return true
 	}
-	return name == pat || strings.HasPrefix(name, pat+"_")
+	return name == pat || strings.HasPrefix(name, pat+"_") || strings.HasPrefix(name, pat+".")
 }
 
 // mergeStates joins path states. The pcs are mutually exclusive.
